@@ -12,10 +12,17 @@ for d in sorted(glob.glob(os.path.join(V, "seeded", "*"))):
     def cl(x, n):
         x = " ".join(str(x or "").split()).replace("|", "/")
         return x if len(x) <= n else x[:n - 1].rstrip() + "…"
-    caught = ", ".join(m.get("caught_by", [])) or "**missed**"
-    ran = ", ".join(sorted(m.get("checks", {})))
-    rows.append("| %s | %s | %s | %s | %s |" % (tag, cl(m.get("summary"), 230), cl(m.get("needs"), 170), caught, ran))
-print("| change | what it does | needs, to manifest | caught by (quick tier) | checks run |")
+    sw = m.get("sweep")
+    if sw:
+        own = {0: "**missed**", 1: "caught"}.get(sw["exit"], "error (exit %d)" % sw["exit"])
+        keys = [l for l in sw.get("lines", []) if l.startswith("key=")]
+        if keys and sw["exit"] == 1:
+            own += ": " + cl(keys[0][4:].split(" what=")[0], 70)
+    else:
+        own = "(not swept)"
+    others = ", ".join(c for c in m.get("caught_by", []) if c != tag[:3]) or "-"
+    rows.append("| %s | %s | %s | %s | %s |" % (tag, cl(m.get("summary"), 230), cl(m.get("needs"), 170), own, others))
+print("| change | what it does | needs, to manifest | check of its own property, final sweep (quick tier) | other checks that caught it in the round it was made |")
 print("|---|---|---|---|---|")
 print("\n".join(rows))
-print("\n%d seeded changes kept, %d caught by at least one check." % (len(rows), sum(1 for r in rows if "**missed**" not in r)))
+print("\n%d seeded changes kept; %d caught by the check of their own property in the final sweep." % (len(rows), sum(1 for r in rows if "| caught" in r)))
